@@ -8,7 +8,7 @@ import threading
 _lock = threading.Lock()
 _handlers = []
 _installed = False
-EVENTS = ('os.rename', 'os.remove')
+EVENTS = ('os.rename', 'os.remove', 'open')
 
 
 def _hook(event, args):
